@@ -18,7 +18,7 @@ pub fn nice() -> impl Strategy<Value = f64> {
 
 /// nice number, zero with probability ~ 30 %
 pub fn nice_sparse() -> BoxedStrategy<f64> {
-    prop_oneof![3 => Just(0.0), 7 => nice_with(16, 2)].boxed()
+    prop_oneof![27 => Just(0.0), 3 => Just(-0.0), 70 => nice_with(16, 2)].boxed()
 }
 
 pub fn nice_nonzero() -> impl Strategy<Value = f64> {
@@ -54,7 +54,22 @@ impl Mat {
                 h = (h ^ v.to_bits()).wrapping_mul(0x0000_0100_0000_01B3).rotate_left(23);
             }
         }
-        let col_major = self.rows.len() >= 2 && self.cols >= 2 && (h >> 17) % 4 == 0 && std::env::var("VERIF_ROW_MAJOR").is_err();
+        let plain = std::env::var("VERIF_ROW_MAJOR").is_ok();
+        let col_major = self.rows.len() >= 2 && self.cols >= 2 && (h >> 17) % 4 == 0 && !plain;
+        // one matrix in eight is stored with its column axis reversed in memory (negative stride), as
+        // `w.slice(s![.., ..;-1])` or a flipped numpy array produce it: contiguous, but memory order != logical order
+        let reversed = self.cols >= 2 && (h >> 29) % 8 == 0 && !plain;
+        if reversed {
+            let mut a = if col_major { Array2::<f64>::zeros((self.rows.len(), self.cols).f()) } else { Array2::<f64>::zeros((self.rows.len(), self.cols)) };
+            for (i, r) in self.rows.iter().enumerate() {
+                assert_eq!(r.len(), self.cols);
+                for (j, v) in r.iter().enumerate() {
+                    a[[i, self.cols - 1 - j]] = *v;
+                }
+            }
+            a.invert_axis(ndarray::Axis(1));
+            return a;
+        }
         let mut a = if col_major { Array2::<f64>::zeros((self.rows.len(), self.cols).f()) } else { Array2::<f64>::zeros((self.rows.len(), self.cols)) };
         for (i, r) in self.rows.iter().enumerate() {
             assert_eq!(r.len(), self.cols);
